@@ -20,42 +20,74 @@ def sh(cmd, cwd=None, env=None, timeout=1800):
 os.environ.setdefault("VERIF_EVIDENCE_DIR", "/tmp/verif_scratch_evidence")     # never overwrite the committed evidence
 
 
+def eval_one(name, repo):
+    d = os.path.join(VERIF, "seeded", name)
+    meta = json.load(open(os.path.join(d, "meta.json")))
+    prop = meta["property"]
+    env = dict(os.environ, PYTHONPATH=os.path.join(repo, "src"), VERIF_REPO=repo)
+    assert sh("git status --porcelain", cwd=repo)[1].strip() == "", "%s must be clean" % repo
+    pre, _ = sh("/venv/bin/python %s/demo.py" % d, env=env)
+    rc, out = sh("git apply %s/patch.diff" % d, cwd=repo)
+    if rc != 0:
+        return (name, prop, "patch does not apply", "", "", "", "")
+    try:
+        post, demo_out = sh("/venv/bin/python %s/demo.py" % d, env=env)
+        _, tests = sh("/venv/bin/python -m pytest -q -p no:cacheprovider 2>&1 | tail -1", cwd=repo, env=env)
+        t0 = time.time()
+        crc, cout = sh("./check %s --tier quick" % prop, cwd=VERIF, env=env)
+        wall = time.time() - t0
+    finally:
+        sh("git checkout -- .", cwd=repo)
+    vio = [l for l in cout.splitlines() if l.startswith("VIOLATION")]
+    und = [l for l in cout.splitlines() if l.startswith("UNDECIDED")]
+    obls = [l.split("obligation=")[1].split()[0][:90] if "obligation=" in l else "" for l in vio]
+    deductive = [o for o in obls if not o.startswith("bounded:")]
+    ev = {"demo_exit_unchanged": pre, "demo_exit_with_patch": post, "repository_tests_with_patch": tests.strip(), "check": "./check %s --tier quick" % prop,
+          "check_exit": crc, "violations": obls[:8], "undecided": len(und), "caught_by_deductive_obligation": bool(deductive), "caught_by_bounded_stand_in": any(o.startswith("bounded:") for o in obls),
+          "wall_s": round(wall, 1)}
+    meta["evaluation"] = ev
+    json.dump(meta, open(os.path.join(d, "meta.json"), "w"), indent=1)
+    row = (name, prop, "pass" if pre == 0 else "FAIL(%d)" % pre, "fails" if post != 0 else "PASSES", tests.strip(), str(crc),
+           ("deductive: " + deductive[0]) if deductive else (("bounded: " + obls[0]) if obls else "MISSED"))
+    print(row, flush=True)
+    return row
+
+
 def main():
-    names = sys.argv[1:] or sorted(os.listdir(os.path.join(VERIF, "seeded")))
-    rows = []
-    for name in names:
-        d = os.path.join(VERIF, "seeded", name)
-        if not os.path.isdir(d) or not os.path.exists(os.path.join(d, "patch.diff")):
-            continue
-        meta = json.load(open(os.path.join(d, "meta.json")))
-        prop = meta["property"]
-        env = dict(os.environ, PYTHONPATH=os.path.join(REPO, "src"))
-        assert sh("git status --porcelain", cwd=REPO)[1].strip() == "", "/repo must be clean"
-        pre, _ = sh("/venv/bin/python %s/demo.py" % d, env=env)
-        rc, out = sh("git apply %s/patch.diff" % d, cwd=REPO)
-        if rc != 0:
-            rows.append((name, prop, "patch does not apply", "", "", "", ""))
-            continue
+    args = sys.argv[1:]
+    jobs = 1
+    if args and args[0].startswith("--jobs="):
+        jobs = int(args.pop(0).split("=")[1])
+    names = args or sorted(os.listdir(os.path.join(VERIF, "seeded")))
+    names = [n for n in names if os.path.exists(os.path.join(VERIF, "seeded", n, "patch.diff"))]
+    if jobs == 1:
+        rows = [eval_one(n, REPO) for n in names]
+    else:
+        # one scratch worktree of REPO's HEAD per worker (removed afterwards); the checks read it through VERIF_REPO
+        import queue
+        from concurrent.futures import ThreadPoolExecutor
+        q = queue.Queue()
+        trees = []
+        for i in range(jobs):
+            wt = "/tmp/wt/se%d" % i
+            sh("git -C %s worktree remove --force %s" % (REPO, wt))
+            rc, out = sh("git -C %s worktree add --detach %s HEAD" % (REPO, wt))
+            assert rc == 0, out
+            trees.append(wt)
+            q.put(wt)
+
+        def work(n):
+            wt = q.get()
+            try:
+                return eval_one(n, wt)
+            finally:
+                q.put(wt)
         try:
-            post, demo_out = sh("/venv/bin/python %s/demo.py" % d, env=env)
-            _, tests = sh("/venv/bin/python -m pytest -q -p no:cacheprovider 2>&1 | tail -1", cwd=REPO)
-            t0 = time.time()
-            crc, cout = sh("./check %s --tier quick" % prop, cwd=VERIF)
-            wall = time.time() - t0
+            with ThreadPoolExecutor(jobs) as ex:
+                rows = list(ex.map(work, names))
         finally:
-            sh("git checkout -- .", cwd=REPO)
-        vio = [l for l in cout.splitlines() if l.startswith("VIOLATION")]
-        und = [l for l in cout.splitlines() if l.startswith("UNDECIDED")]
-        obls = [l.split("obligation=")[1].split()[0][:90] if "obligation=" in l else "" for l in vio]
-        deductive = [o for o in obls if not o.startswith("bounded:")]
-        ev = {"demo_exit_unchanged": pre, "demo_exit_with_patch": post, "repository_tests_with_patch": tests.strip(), "check": "./check %s --tier quick" % prop,
-              "check_exit": crc, "violations": obls[:8], "undecided": len(und), "caught_by_deductive_obligation": bool(deductive), "caught_by_bounded_stand_in": any(o.startswith("bounded:") for o in obls),
-              "wall_s": round(wall, 1)}
-        meta["evaluation"] = ev
-        json.dump(meta, open(os.path.join(d, "meta.json"), "w"), indent=1)
-        rows.append((name, prop, "pass" if pre == 0 else "FAIL(%d)" % pre, "fails" if post != 0 else "PASSES", tests.strip(), str(crc),
-                     ("deductive: " + deductive[0]) if deductive else (("bounded: " + obls[0]) if obls else "MISSED")))
-        print(rows[-1], flush=True)
+            for wt in trees:
+                sh("git -C %s worktree remove --force %s" % (REPO, wt))
     with open(os.path.join(VERIF, "seeded", "RESULTS.md"), "w") as f:
         f.write("# Seeded property-breaking changes vs the checks (quick tier)\n\n| seed | property | demo (unchanged) | demo (patched) | repo tests (patched) | check exit | first catching obligation |\n|---|---|---|---|---|---|---|\n")
         for r in rows:
